@@ -378,3 +378,84 @@ func VerifC06_CloseDuringExecute() {
 }
 
 func init() { verifRegister("VerifC06_CloseDuringExecute", VerifC06_CloseDuringExecute) }
+
+// the peer emits signals for a run whose caller passed no channel for them (signalsFromStep == nil), before the
+// result and — for a second run — right after the first run's result: the signals are dropped, every Execute
+// still returns its result and Close returns
+func init() { verifRegister("VerifC06_SignalsWithoutListener", VerifC06_SignalsWithoutListener) }
+
+func VerifC06_SignalsWithoutListener() {
+	toSrvR, toSrvW := verifNewPipe()
+	fromSrvR, fromSrvW := verifNewPipe()
+	nSig := 1 + nondetChoice("nsig", 2)
+	late := nondetBool("lateSignal") // one more signal for r1 after its work-done
+	second := nondetBool("secondExecute")
+	var srv sync.WaitGroup
+	srv.Add(1)
+	verifSchedQuiet(true)
+	go func() {
+		defer srv.Done()
+		enc, dec := cbor.NewEncoder(fromSrvW), cbor.NewDecoder(toSrvR)
+		if !verifServeHello(enc, dec, fromSrvW, helloOK, 3) {
+			return
+		}
+		runs := 1
+		if second {
+			runs = 2
+		}
+		starts := make(chan string, 2)
+		var rd sync.WaitGroup
+		rd.Add(1)
+		go func() {
+			defer rd.Done()
+			for {
+				var m DecodedRuntimeMessage
+				if err := dec.Decode(&m); err != nil {
+					return
+				}
+				switch m.MessageID {
+				case MessageTypeWorkStart:
+					starts <- m.RunID
+				case MessageTypeClientDone:
+					_ = toSrvR.Close()
+					return
+				}
+			}
+		}()
+		for r := 0; r < runs; r++ {
+			run := <-starts
+			if r == 0 {
+				for i := 0; i < nSig; i++ {
+					_ = enc.Encode(RuntimeMessage{MessageTypeSignal, run, SignalMessage{SignalID: "progress", Data: map[string]any{"i": int64(i)}}})
+				}
+			}
+			if r == 1 && late {
+				_ = enc.Encode(RuntimeMessage{MessageTypeSignal, "r1", SignalMessage{SignalID: "progress", Data: map[string]any{"i": int64(9)}}})
+			}
+			_ = enc.Encode(RuntimeMessage{MessageTypeWorkDone, run, WorkDoneMessage{StepID: "inc", OutputID: "ok", OutputData: map[string]any{"o": int64(7)}}})
+		}
+		rd.Wait() // client done
+		_ = fromSrvW.Close()
+	}()
+	client := NewClientWithLogger(&verifChan{r: fromSrvR, w: toSrvW}, nil)
+	_, err := client.ReadSchema()
+	verifSchedQuiet(false)
+	verifAssert("C06/nolistener/handshake", err == nil)
+	if err != nil {
+		return
+	}
+	verifReach("C06/nolistener/started")
+	res := client.Execute(schema.Input{RunID: "r1", ID: "inc", InputData: map[string]any{"n": int64(1)}}, nil, nil)
+	verifAssert("C06/nolistener/execute-returns-result", res.Error == nil && res.OutputID == "ok")
+	if second {
+		res2 := client.Execute(schema.Input{RunID: "r2", ID: "inc", InputData: map[string]any{"n": int64(2)}}, nil, nil)
+		verifAssert("C06/nolistener/second-execute-returns", res2.Error == nil && res2.OutputID == "ok")
+	}
+	cerr := client.Close()
+	verifAssert("C06/nolistener/close", cerr == nil)
+	srv.Wait()
+	_ = fromSrvR.Close()
+	_ = toSrvW.Close()
+	verifLeakCheck(true)
+	verifReach("C06/nolistener/end")
+}
